@@ -308,6 +308,13 @@ fn create_lowlevel(l: &Logical, comp: Comp, dir: &Path) -> Result<CreatedLogical
 
 fn logical_n(n: usize) -> Logical {
     let mut l = shape("multi2");
+    while l.extra_packs.len() < n - 1 {
+        let k = l.extra_packs.len() as u64;
+        l.extra_packs.push(vec![
+            Item { len: 200 + 10 * k as usize, entropy: Entropy::Low, hint: Hint::Yes, src: Src::Memory, tag: 40 + k },
+            Item { len: 50, entropy: Entropy::High, hint: Hint::No, src: Src::Memory, tag: 50 + k },
+        ]);
+    }
     l.extra_packs.truncate(n - 1);
     // entries must only reference existing packs
     for (i, e) in l.dir.entries.iter_mut().enumerate() {
@@ -462,12 +469,12 @@ fn c11(args: &Args) -> ! {
     let mut rep = Report::new(
         "packmc",
         "C11",
-        "containers with n in {1,2,3} content packs in separate files, built by BasicCreator NoConcat+extras and by the low-level creators; every subset of the content packs x every way {removed, replaced by a directory, replaced by a different valid content pack with the same content count} per member (full product); oracle: opens, every entry as the model, available contents read, unavailable ones MISSING with the recorded uuid/id/location, check() true, unknown pack id -> none; non-trivial = at least one pack unavailable",
+        "containers with n in {1,2,3} (thorough: 4) content packs in separate files, built by BasicCreator NoConcat+extras and by the low-level creators; every subset of the content packs x every way {removed, replaced by a directory, replaced by a different valid content pack with the same content count} per member (full product); oracle: opens, every entry as the model, available contents read, unavailable ones MISSING with the recorded uuid/id/location, check() true, unknown pack id -> none; non-trivial = at least one pack unavailable",
     );
     let t = args.thorough();
     let ways = [None, Some(Unavail::Removed), Some(Unavail::Directory), Some(Unavail::OtherPack)];
     let mut cases: Vec<(usize, bool, Comp, Vec<Option<Unavail>>)> = vec![];
-    let maxn = 3;
+    let maxn = if t { 4 } else { 3 };
     for n in 1..=maxn {
         for lowlevel in [false, true] {
             let comps: Vec<Comp> = if t { vec![Comp::None, Comp::Zstd(5), Comp::Lz4(3), Comp::Lzma(1)] } else { vec![Comp::None, Comp::Zstd(5)] };
